@@ -564,7 +564,7 @@ struct Src {
 				if (!a) ++C.adv0_past_end;
 			}
 			else if (last) {
-				if (w.tail_error) { if (a >= 0) { viol("advance|" + fam + "|" + where + "|tail-error-lost", hist, fmt("the walk reported an error behind the last element, now advance returned %d", a)); return false; } m.dirty = true; }
+				if (w.tail_error) { if (a >= 0) { viol("advance|" + fam + "|" + where + "|tail-error-lost", hist, fmt("the walk reported an error behind the last element, now advance returned %d", a)); return false; } /* position and element stay as they are */ }
 				else if (a > 0) { viol("advance|" + fam + "|" + where + "|reports-more", hist, fmt("advance from the last element returned %d (more elements)", a)); return false; }
 				else if (a < 0) { viol("advance|" + fam + "|" + where + "|error-instead-of-end", hist, fmt("advance from the last element returned error %d", a)); return false; }
 				else { ++m.p; m.armed = false; }
@@ -590,7 +590,7 @@ struct Src {
 			if (asan_error()) { viol("clone|" + fam + "|" + where + "|memory", hist, "clone touches memory outside the objects (AddressSanitizer)"); return false; }
 			if (c == 0) { ++C.clone_unsupported; return false; }
 			if (c < 0) { viol("clone|" + fam + "|" + where + "|no-iterator", hist, "the clone does not offer the iterator interface"); return false; }
-			m.ctx = 2; m.armed = false;
+			m.ctx = 2;   // the clone is at the same position with the same current element: a bare advance stays enabled
 			return true;
 		}
 		// consume
@@ -604,7 +604,7 @@ struct Src {
 			return true;
 		}
 		if (ret < 0) {
-			if (last && w.tail_error) { m.dirty = true; return true; }
+			if (last && w.tail_error) return true;   // refused: position and element stay as they are
 			if (op == CONSD && w.ref[m.p].k == Obs::DBL) { viol("consume|" + fam + "|" + where + "|refused", hist, fmt("element %llu is readable but consume('d') returned %d", (unsigned long long) m.p, ret)); return false; }
 			return true;   // conversion refused: position must be unchanged
 		}
@@ -1075,6 +1075,17 @@ static void fam_iterarg(Tier, std::vector<Spec> &v)
 		Spec s; s.fam = F_ITERARG; s.argkind = 1; s.text = x;
 		char N[32], A[32], B[32], Cc[32]; sscanf(x, "%31s %31s %31s %31s", N, A, B, Cc);
 		s.den = denote_create((std::string("fac(") + N + ":" + A + ":" + B + ":" + Cc + ")").c_str()); s.den.why = "iterator-args"; s.den.plain = false;
+		v.push_back(s);
+	}
+	// argument lists with an element that is no number: malformed for every generator
+	for (int k = 0; k < 3; ++k) for (const char *x : { "4 abc", "4 2 abc", "4 2 3 abc", "4 1e999", "0 1 abc", "4 0 abc" }) {
+		Spec s; s.fam = F_ITERARG; s.argkind = k; s.text = x;
+		if (k == 2 && x[0] == '4' && (x[2] == 'a' || x[2] == '1')) continue;   // range needs two bounds first
+		if (k == 0 && std::string(x) == "4 2 3 abc") continue;                 // linear takes three arguments, a surplus one is not looked at
+		if (k != 1 && std::string(x) == "4 1e999") continue;
+		if (k == 2 && std::string(x) == "4 2 3 abc") continue;
+		if (k == 1 && std::string(x) == "0 1 abc") { }
+		s.den = mal(k == 0 ? "linear" : (k == 1 ? "factor" : "range"), "iterator-args,no-number");
 		v.push_back(s);
 	}
 	// factor with omitted trailing arguments: same defaults as the text form ("default factor is replaced by base")
